@@ -335,15 +335,15 @@ theorem ctx_blocks_use_after_end (c : Conn) (m : Nat) (hm : c.ctxMgr = some m) (
     RootTransaction object, every `_previous_nested` link points to an older object and the
     current savepoint object exists — whatever sequence of operations (all 23 kinds, armed
     faults, misuse) led there. -/
-theorem wf_all (rs : ResetStyle) (ls : Listener) (eo : List Bool) (ops : List Op) :
-    WFc ((Conn.connect (DB.init rs ls eo)).run ops) :=
+theorem wf_all (rs : ResetStyle) (ls : Listener) (eo : List Bool) (rc : Option Nat) (ops : List Op) :
+    WFc ((Conn.connect (DB.init rs ls eo rc)).run ops) :=
   run_wfc ops _ (wfc_empty rfl rfl rfl)
 
 /-- consequence: cancelling the savepoints from any reachable state always empties
     `_nested_transaction` (the `_cancel` recursion reaches the end of the chain) -/
-theorem cancel_reaches_end (rs : ResetStyle) (ls : Listener) (eo : List Bool) (ops : List Op) :
-    ((Conn.connect (DB.init rs ls eo)).run ops).cancelNested.nested = none :=
-  cancelNested_none (wf_all rs ls eo ops).2
+theorem cancel_reaches_end (rs : ResetStyle) (ls : Listener) (eo : List Bool) (rc : Option Nat) (ops : List Op) :
+    ((Conn.connect (DB.init rs ls eo rc)).run ops).cancelNested.nested = none :=
+  cancelNested_none (wf_all rs ls eo rc ops).2
 
 /-! ## where the unrestricted statement fails (findings F8, F18)
 
